@@ -500,8 +500,8 @@ func main() {
 		"matrix: every subset of the 8 regex-carrying identifier fields x patterns derived from identifiers, all 5 specification roles, through config.Load; " +
 		"sites: every call form x Call/Go/Defer x package layout in generated multi-package modules; distinct = distinct (specification, identifier/site) text"
 	stageRegex(rep)
-	siteCids := stageSites(rep)
-	stageMatrix(rep, siteCids)
+	stageMatrix(rep, nil)
+	stageSites(rep)
 	stageE2E(rep)
 	rep.Finish()
 }
